@@ -592,6 +592,7 @@ GROUPS = {
         ("R11", r"(\b[\w.]+(?:\(\))?)\s*\[\(\s*([^,()\]]+),\s*([^,()\]]+)\)\]", r"\1.at(\2, \3)"),
         # point - point (nalgebra gives a vector)
         ("R11", r"\(\s*([\w.]+(?:\(\))?)\s*-\s*([\w.:]+(?:\(\))?)\s*\)\s*\.\s*norm_squared\(\)", r"\1.sub_p(&\2).norm_squared()"),
+        ("R11", r"\(\s*([\w.]+(?:\(\))?)\s*-\s*([\w.:]+(?:\(\))?)\s*\)\s*\.\s*norm\(\)", r"\1.sub_p(&\2).norm()"),
         ("R11", r"\bPoint2<F>", "Point2"),
         ("R11", r"\bPoint2<f64>", "Point2"),
         ("R11", r"\bTranslation2<f64>", "Translation2"),
